@@ -160,15 +160,19 @@ func checkSolve(c solveCase) *vk.Failure {
 		if !ok {
 			ad = denseOf(g.A)
 		}
-		var x mat.Dense
-		err := x.Solve(ad, ad)
+		dstS, stS := mkDst(c.Dst, n, n, nil, sm)
+		vk.Class("solve/self dst=" + dstNames[stS])
+		err := dstS.d.Solve(ad, ad)
 		if singular || ill {
 			return nil
 		}
 		if err != nil {
 			return failf("self-error", "Solve(a, a) returned %v", err)
 		}
-		X := toM(&x)
+		X, fS := dstS.result("self")
+		if fS != nil {
+			return fS
+		}
 		r, _ := residDD(g.A, X, g.A)
 		for j := 0; j < n; j++ {
 			tol := cOrth * float64(n) * eps * (frob(g.A)*norm2(X.col(j)) + norm2(g.A.col(j)))
@@ -271,5 +275,5 @@ func checkSolve(c solveCase) *vk.Failure {
 }
 
 func TestSolve(t *testing.T) {
-	vk.Run(t, "solve", vk.Opts{Quick: 1000, Thorough: 30000}, drawSolve, checkSolve)
+	vk.Run(t, "solve", vk.Opts{Quick: 3000, Thorough: 90000}, drawSolve, checkSolve)
 }
